@@ -43,6 +43,22 @@ fn fw(out: &mut Vec<Field>, name: &str, off: usize, bytes: Vec<u8>, len: usize) 
     }
 }
 
+/// A DICT real-number operand of `digits` characters followed by the two-character "E-" nibble
+/// and the terminator: exercises the fixed-size text buffer of the real-number parser.
+fn long_real(digits: usize) -> Vec<u8> {
+    let mut v = vec![0x1e];
+    let mut nibbles: Vec<u8> = vec![1; digits];
+    nibbles.push(0xc);
+    nibbles.push(0xf);
+    if nibbles.len() % 2 == 1 {
+        nibbles.push(0xf);
+    }
+    for p in nibbles.chunks(2) {
+        v.push(p[0] << 4 | p[1]);
+    }
+    v
+}
+
 /// A CFF2 INDEX (32-bit count): (count, offSize, [start, end) of each object, end of the INDEX).
 fn cff2_index(d: &[u8], at: usize) -> Option<(usize, usize, Vec<(usize, usize)>, usize)> {
     let count = be32(d, at)?;
@@ -153,6 +169,10 @@ fn cff2_deep_fields(out: &mut Vec<Field>, d: &[u8], hs: usize, tl: usize, rng: &
                         if let [size, off] = v[..] {
                             let (size, off) = (size.max(0) as usize, off.max(0) as usize);
                             if size > 0 && off + size <= n {
+                                let real = long_real(*rng.pick(&[30usize, 62, 63, 64, 65]));
+                                if size > real.len() {
+                                    fw(out, "CFF2.private.longReal", off, real, n);
+                                }
                                 f(out, "CFF2.private.byte", off + rng.usize_below(size), 1, n);
                                 let pd = cff_dict(&d[off..off + size]);
                                 if let Some(so) = pd.iter().find(|(o, _)| *o == 19).and_then(|(_, v)| v.last().copied()) {
@@ -343,6 +363,10 @@ fn cff_deep_fields(out: &mut Vec<Field>, d: &[u8], rng: &mut Rng) {
             let (size, off) = (size.max(0) as usize, off.max(0) as usize);
             if size > 0 {
                 f(out, "CFF.private.byte", off + rng.usize_below(size), 1, n);
+            }
+            let real = long_real(*rng.pick(&[30usize, 62, 63, 64, 65]));
+            if size > real.len() {
+                fw(out, "CFF.private.longReal", off, real, n);
             }
             if let Some(pd) = d.get(off..off + size) {
                 let pdict = cff_dict(pd);
